@@ -23,7 +23,7 @@ PROP = dict(
                "as list concatenation, Go uint16/uint32/byte truncation written into the model.",
     engines=[dict(hx="codec_rt")],
     theorems=["C26_roundtrip", "C26_encoder_refuses_only_pid0", "C26_encodes_permitted_form", "C26_properties",
-              "C26_fields_preserved", "C26_decoded_wellformed", "C26_reencode_modulo_findings", "C26_reencode_refuted"],
+              "C26_fields_preserved", "C26_decoded_wellformed", "C26_reencode_modulo_findings", "C26_reencode_refuted", "C26_utf8_is_spec"],
     model_files="coq/Codec/Wire.v coq/Codec/Props.v coq/Codec/MochiCodec.v coq/Codec/CodecNorm.v",
     rule="(kind 2) every Packet value of packets.TPacketData (with and without AllowResponseInfo), boundary values "
          "(empty / 65535-byte / 65536-byte / multi-byte / invalid strings in topic, client id, will, user name, "
@@ -33,7 +33,7 @@ PROP = dict(
          "identifiers: input value, encoder output bytes (compared byte-exactly with the model) and decoded fields "
          "(compared with norm). (kind 3) byte strings accepted by the real decoder — catalogue vectors under 3 "
          "versions, reference encodings in every shortened form, mutated encoder outputs — decoded, re-encoded, "
-         "decoded again. non-trivial = well-formed packet whose encoding was decoded; distinct = distinct case lines",
+         "decoded again. non-trivial = well-formed packet whose encoding was decoded; distinct = distinct case lines. Special code points (U+FFFD, U+FEFF, U+0001, U+007F/0080, U+07FF/0800, U+FFFE/FFFF, U+D7FF/E000, U+10000, U+10FFFF) and ill-formed forms (surrogates, overlong, truncated, > U+10FFFF, NUL) are placed in every string-typed field and drawn by the random generators.",
     exhaustive=False,
     modelled="packets/packets.go all *Encode and *Decode methods, properties.go Encode/Decode, fixedheader.go, "
              "codec.go, the type switches of clients.go ReadPacket/WritePacket",
